@@ -22,6 +22,13 @@ TECH = {
     "C08": "condvar/mutex discipline rules (monitor premises Q1-Q11) on the MIR: guard liveness, must-pass-through notify, dominance of the abort re-check, loop-exit structure, who-may-call",
     "C17": "ownership analysis: discovery of closure-owns-its-receiver installations vs a reviewed table + cut obligations as path rules",
     "C18": "lock-order/atomicity rules on ToVec::poll and the terminal callbacks (guard liveness + dominance)",
+    "C09": "hand-off rules: exactly-one-post must-pass-through per handler, role agreement of the posted task's sink, payload provenance through captures, who-may-call abort",
+    "C10": "who-may-write + ordering rules on the Subject map (guard liveness, dominance, key provenance)",
+    "C11": "atomicity rule: deciding cells acquired exactly once in write mode per body, no emission under the guard",
+    "C12": "who-may-write + snapshot-delivery + history-before-broadcast ordering rules",
+    "C13": "atomicity (test-and-set under one guard), who-may-write and role-agreement rules on publish/ref_count/replay",
+    "C15": "pairing rule: scheduler creation paired with abort wiring on all paths; who-may-spawn; worker loop exit structure",
+    "C19": "atomic-take rule (per-kind terminal) on Observer and FunctionWrapper MIR",
     "C14": "capture/ownership analysis: interior-mutable leaves of every upvar type of every Observable::create closure",
 }
 NOTE = ("Decides necessary structural conditions on the MIR of /repo's current tree (all paths of every matching site); "
